@@ -65,8 +65,9 @@ var (
 	vkTypeT = reflect.TypeOf((*vkT)(nil))
 	vkTypeG = reflect.TypeOf((*vkG)(nil))
 
-	vkErrCtor = errors.New("vk: constructor failed")
-	vkErrInit = errors.New("vk: initializer failed")
+	vkErrCtor  = errors.New("vk: constructor failed")
+	vkErrInit  = errors.New("vk: initializer failed")
+	vkErrClose = errors.New("vk: Close failed")
 )
 
 // ---------------------------------------------------------------------------- world
@@ -151,11 +152,24 @@ func (w *vkWorld) newInst() int {
 
 func (w *vkWorld) closing(id int) error {
 	w.yield("close"+strconv.Itoa(id), true)
+	if w.stress && id%5 == 0 { // some disposals are slow: widens every window around a Close in flight
+		runtime.Gosched()
+		time.Sleep(30 * time.Microsecond)
+	}
 	w.mu.Lock()
 	w.closeLog = append(w.closeLog, id)
 	w.closeCnt[id]++
 	w.mu.Unlock()
+	if w.stress && id%9 == 0 { // and some fail
+		return vkErrClose
+	}
 	return nil
+}
+
+// vkCloseOK: Close returned nil or the documented disposal error
+func vkCloseOK(err error) bool {
+	var de *DisposalError
+	return err == nil || errors.As(err, &de)
 }
 
 func (w *vkWorld) failNow() bool {
@@ -461,10 +475,17 @@ func (w *vkWorld) eligible() []int {
 			e = append(e, th.id)
 		}
 	}
+	if w.watcher.parked != nil {
+		e = append(e, -1)
+	}
 	return e
 }
 
 func (w *vkWorld) release(id int) {
+	if id < 0 {
+		w.releaseWatcher()
+		return
+	}
 	w.mu.Lock()
 	th := w.byID[id]
 	if !th.started {
@@ -481,10 +502,8 @@ func (w *vkWorld) release(id int) {
 	}
 }
 
-// the watcher parks only inside Close methods; it is released together with the next step of any
-// harness thread? No: the model treats a parked watcher like any thread parked in user code, but
-// the protocol has no id for it. We release it automatically right after it parks, *before* taking
-// the snapshot, so it never shows as parked: see releaseWatcher.
+// releaseWatcher lets a goroutine godi started itself (the cancellation watcher of S) that is parked
+// in a Close method go on; in the protocol it is thread `w`.
 func (w *vkWorld) releaseWatcher() bool {
 	w.mu.Lock()
 	p := w.watcher.parked
@@ -593,17 +612,13 @@ func vkRun(o *vkOut, sc vkScenario, choose func(step int, el []int) int) (lines 
 			report("C09,C13", "hang: "+err.Error()+" after releasing thread "+strconv.Itoa(id)+" in "+w.snapshot())
 			return lines, options, err
 		}
-		// a goroutine godi started itself (cancellation watcher) that parked in a Close method goes on
-		// at once: the model lets it run on as well (it is not a harness thread)
-		for w.releaseWatcher() {
-			o.stats["watcher_closes"]++
-			if err := w.settle(); err != nil {
-				report("C09,C13", "hang: "+err.Error()+" after releasing the watcher in "+w.snapshot())
-				return lines, options, err
-			}
-		}
 		snap := w.snapshot()
-		emit(fmt.Sprintf("k go %d :: %s", id, snap), "ok")
+		name := strconv.Itoa(id)
+		if id < 0 {
+			name = "w"
+			o.stats["watcher_closes"]++
+		}
+		emit(fmt.Sprintf("k go %s :: %s", name, snap), "ok")
 		running := 0
 		for _, f := range strings.Fields(snap) {
 			if !strings.Contains(f, "=new") && !strings.Contains(f, "=done") && !strings.HasPrefix(f, "w=") {
@@ -613,7 +628,7 @@ func vkRun(o *vkOut, sc vkScenario, choose func(step int, el []int) int) (lines 
 				o.stats["status_"+strings.TrimRight(strings.SplitN(f[i+1:], ":", 2)[0], "0123456789")]++
 			}
 		}
-		if running >= 2 {
+		if running >= 2 || (running >= 1 && !strings.HasSuffix(snap, "w=-")) {
 			overlap = true
 		}
 	}
@@ -786,7 +801,10 @@ func vkParse(path string) ([]vkScenario, error) {
 			}
 		case "go":
 			if cur != nil && len(f) >= 3 {
-				id, _ := strconv.Atoi(f[2])
+				id, err := strconv.Atoi(f[2])
+				if err != nil {
+					id = -1 // "w": the watcher
+				}
 				cur.sched = append(cur.sched, id)
 			}
 		}
@@ -1095,7 +1113,7 @@ func TestVerifConcStress(t *testing.T) {
 							continue
 						}
 						guard("scope.Close", func() {
-							if err := sc.s.Close(); err != nil {
+							if err := sc.s.Close(); !vkCloseOK(err) {
 								report(round, "C09,C12", "scope.Close returned "+err.Error())
 							}
 							count("close")
@@ -1115,7 +1133,7 @@ func TestVerifConcStress(t *testing.T) {
 					default:
 						if midClose && i > OPS/2 && g%4 == 0 {
 							guard("provider.Close", func() {
-								if err := w.prov.Close(); err != nil {
+								if err := w.prov.Close(); !vkCloseOK(err) {
 									report(round, "C09,C12", "provider.Close returned "+err.Error())
 								}
 								count("pclose")
@@ -1151,7 +1169,7 @@ func TestVerifConcStress(t *testing.T) {
 						cw.Add(1)
 						go func(sc *vkStressScope) {
 							defer cw.Done()
-							if err := sc.s.Close(); err != nil {
+							if err := sc.s.Close(); !vkCloseOK(err) {
 								report(round, "C09,C12", "concurrent final scope.Close returned "+err.Error())
 							}
 						}(sc)
@@ -1177,7 +1195,7 @@ func TestVerifConcStress(t *testing.T) {
 					}
 				}
 				for k := 0; k < 2; k++ {
-					if err := w.prov.Close(); err != nil {
+					if err := w.prov.Close(); !vkCloseOK(err) {
 						report(round, "C09,C12", "final provider.Close returned "+err.Error())
 					}
 				}
